@@ -13,7 +13,12 @@
    connects, which *class* of input it sends next (the classes are realised by
    the mutation grammar of harness/drivers/c14_grammar.py) and when the peer
    hangs up - after any step, or right behind a read ("X": the disconnect is
-   queued behind the read event without a tick in between).
+   queued behind the read event without a tick in between).  A connection's
+   transport either disconnects at once when the component fires close(sock)
+   or *lingers* (mode "linger": circuits.net.sockets.Server defers the close
+   while its write buffer drains): the connection is then "closing", reads
+   are still delivered ("late" reads) until the environment lets the transport
+   fire disconnect(sock) ("T").
 
    The component's reaction to one input is one atomic step (the harness lets
    the pipeline become quiescent after every read).  Which reaction a class
@@ -25,16 +30,21 @@
    *before* it fires them.
 
    Defects (dv; each is a generator of counterexample histories, never an oracle):
-     "keepbuf"  _on_disconnect releases _clients[sock] only; _buffers[sock] is
-                deleted on the dispatch / 400 / TLS paths only (pinned code)
+     "keepbuf"  _on_disconnect releases _clients[sock] only (repaired in /repo)
      "echo505"  the 505 answer, and the 400 answer to a header error, repeat the
-                client's version token in their status line (pinned code):
+                client's version token in their status line (repaired in /repo):
                 "HTTP/2.0 505" is unreadable for an HTTP/1.x client (r505g), so
                 is "HTTP/1.380 400" (r400g: not a valid HTTP-version), and
                 "HTTP/1.2 400" carries no Connection: close although the
                 connection is closed (r400k)
-   dv = {} is the intended discipline: everything keyed by the socket
-   is released when disconnect(sock) is delivered.                          *)
+     "stalebuf" the 505, 301 and exception exits of _on_read answer and close
+                but leave the finished parser in _buffers[sock] until the
+                disconnect: every late read finds it (headers complete, no
+                _clients entry), rebuilds the request from the same headers and
+                answers the message AGAIN
+   dv = {} is the intended discipline: a parser is dropped when its message is
+   dispatched or answered, and everything keyed by the socket is released
+   when disconnect(sock) is delivered.                                      *)
 EXTENDS HttpConnOps, Naturals, FiniteSets, TLC
 
 CONSTANTS NConn,      \* connections 1..NConn
@@ -42,10 +52,13 @@ CONSTANTS NConn,      \* connections 1..NConn
           MaxSteps,   \* length of the environment history
           Classes,    \* input classes the environment may use
           Racing,     \* BOOLEAN: include reads with the hang-up queued right behind
-          DefectSets  \* set of subsets of {"keepbuf", "echo505"}: the variants to explore
+          Linger,     \* BOOLEAN: include connections whose transport lingers after close
+          DefectSets  \* set of subsets of {"keepbuf", "echo505", "stalebuf"}: the variants to explore
 
 VARIABLES dv,       \* the defect set of this behaviour (chosen initially, then constant)
-          cs,       \* c -> [ph, buf, cli, nin, trunc]: trunc = the last input was a Truncate
+          cs,       \* c -> [ph, buf, cli, nin, trunc, lg, stale]: trunc = the last input was a
+                    \* Truncate; lg = lingering transport; stale = the answer-and-close reaction
+                    \* whose finished parser is still in _buffers ("" if none)
           P,        \* monitor state (HttpConnOps)
           bad,      \* first failed clause, "" if none
           hist,     \* environment history: what the replay drives
@@ -60,7 +73,7 @@ Emit(lines) == LET r == Run(P, lines, bad)
                IN /\ P' = r[1] /\ bad' = r[2]
                   /\ out' = out \o [i \in 1..Len(lines) |-> Compact(lines[i])]
 
-K0 == [ph |-> "none", buf |-> FALSE, cli |-> FALSE, nin |-> 0, trunc |-> FALSE]
+K0 == [ph |-> "none", buf |-> FALSE, cli |-> FALSE, nin |-> 0, trunc |-> FALSE, lg |-> FALSE, stale |-> ""]
 
 Init == /\ dv \in DefectSets
         /\ cs = [c \in Conns |-> K0]
@@ -70,7 +83,7 @@ L(k, c, st, pr, sc, a, b) == Line(k, c, "", "", st, pr, sc, a, b)
 B2N(x) == IF x THEN 1 ELSE 0
 
 WfOf(cls) == CASE cls \in {"GoodKA", "GoodClose", "Rest"} -> "good"
-               [] cls = "Truncate" -> "partial"
+               [] cls \in {"Truncate", "TlsCut"} -> "partial"
                [] OTHER -> "mal"
 
 (* the code paths of HTTP._on_read a class of input can reach *)
@@ -85,7 +98,8 @@ Reactions(cls) ==
     [] cls = "BadEscape" -> {"r400", "accK", "accC", "r301", "x500"}
     [] cls = "Nul"       -> {"r400", "accK", "accC", "wait"}
     [] cls = "TlsHello"  -> {"pclose", "wait", "r400", "x500"}
-    [] cls = "Truncate"  -> {"wait", "waitB", "accK"}
+    [] cls = "Truncate"  -> {"wait", "waitB"}
+    [] cls = "TlsCut"    -> {"wait", "pclose"}
     [] cls = "Rest"      -> {"accK", "accC", "r400", "wait", "waitB"}
     [] OTHER             -> {}
 
@@ -108,11 +122,12 @@ Events(r, c) ==
 
 (* what the code path leaves in _buffers[sock] / _clients[sock] when its events
    have been handled (before any disconnect) *)
-BufAfter(r) == r \in {"wait", "waitB", "r505", "r505g", "r301", "x500"}
+StaleExits == {"r505", "r505g", "r301", "x500"}
+BufAfter(r) == r \in {"wait", "waitB"} \/ ("stalebuf" \in dv /\ r \in StaleExits)
 CliAfter(r) == r = "waitB"
 
 (* disconnect(sock) delivered: HTTP._on_disconnect *)
-Released(k) == [k EXCEPT !.ph = "gone", !.cli = FALSE,
+Released(k) == [k EXCEPT !.ph = "gone", !.cli = FALSE, !.stale = "",
                          !.buf = IF "keepbuf" \in dv THEN @ ELSE FALSE]
 
 Tabs(ncs) ==
@@ -123,13 +138,13 @@ StepEnd(c, ncs) == <<L("alive", c, 0, "", FALSE, 1, 0)>> \o Tabs(ncs)
 
 CanStep == Len(hist) < MaxSteps
 
-Connect(c) ==
-  /\ CanStep /\ cs[c].ph = "none"
+Connect(c, lg) ==
+  /\ CanStep /\ cs[c].ph = "none" /\ (lg => Linger)
   /\ \A d \in Conns : d < c => cs[d].ph # "none"          \* symmetry: connections are used in order
-  /\ LET ncs == [cs EXCEPT ![c].ph = "idle"] IN
+  /\ LET ncs == [cs EXCEPT ![c].ph = "idle", ![c].lg = lg] IN
      /\ cs' = ncs
-     /\ Emit(<<L("conn", c, 0, "", FALSE, 0, 0)>> \o StepEnd(c, ncs))
-  /\ hist' = Append(hist, <<"C", c, "">>) /\ UNCHANGED dv
+     /\ Emit(<<L("conn", c, 0, "", FALSE, B2N(lg), 0)>> \o StepEnd(c, ncs))
+  /\ hist' = Append(hist, <<"C", c, IF lg THEN "linger" ELSE "">>) /\ UNCHANGED dv
 
 Enabled(c, cls) ==
   /\ cs[c].nin < MaxIn
@@ -139,19 +154,37 @@ Enabled(c, cls) ==
 (* one read event carrying a message of class cls; the component runs to quiescence *)
 In(c, cls, r) ==
   /\ CanStep /\ Enabled(c, cls) /\ r \in Reactions(cls)
-  /\ LET k1  == [cs[c] EXCEPT !.nin = @ + 1, !.trunc = (cls = "Truncate"), !.buf = BufAfter(r), !.cli = CliAfter(r),
-                              !.ph = IF r \in {"wait", "waitB"} THEN "wait" ELSE "idle"]
-         k2  == IF r \in Closing THEN Released(k1) ELSE k1
+  /\ LET cl  == r \in Closing
+         k1  == [cs[c] EXCEPT !.nin = @ + 1, !.trunc = (cls = "Truncate"), !.buf = BufAfter(r), !.cli = CliAfter(r),
+                              !.stale = IF BufAfter(r) /\ r \in StaleExits THEN r ELSE "",
+                              !.ph = IF r \in {"wait", "waitB"} THEN "wait" ELSE IF cl THEN "closing" ELSE "idle"]
+         k2  == IF cl /\ ~cs[c].lg THEN Released(k1) ELSE k1
          ncs == [cs EXCEPT ![c] = k2]
-         tr  == IF r \in Closing THEN <<L("disc", c, 0, "", FALSE, 0, 0)>> ELSE <<>>
+         tr  == IF cl /\ ~cs[c].lg THEN <<L("disc", c, 0, "", FALSE, 0, 0)>> ELSE <<>>
      IN /\ cs' = ncs
         /\ Emit(<<Line("in", c, cls, WfOf(cls), 0, "", FALSE, 0, 0)>> \o Events(r, c) \o tr \o StepEnd(c, ncs))
   /\ hist' = Append(hist, <<"I", c, cls>>) /\ UNCHANGED dv
 
-(* the same with the peer's hang-up queued right behind the read: the
+(* a late read: the component has fired close(sock), the lingering transport still
+   delivers.  With a stale parser in _buffers the finished message is answered again
+   whatever arrives; otherwise the bytes start a new message *)
+Late(c, cls, r) ==
+  /\ CanStep /\ cs[c].ph = "closing" /\ cs[c].nin < MaxIn /\ cls # "Rest"
+  /\ IF cs[c].stale = "" THEN r \in Reactions(cls)
+     ELSE IF cs[c].stale = "x500" THEN r \in {"x500", "wait", "r400"}   \* a parser that raised half-way may also just go on
+     ELSE r = cs[c].stale
+  /\ LET k1  == IF cs[c].stale # "" THEN [cs[c] EXCEPT !.nin = @ + 1]
+                ELSE [cs[c] EXCEPT !.nin = @ + 1, !.buf = BufAfter(r), !.cli = CliAfter(r),
+                                   !.stale = IF BufAfter(r) /\ r \in StaleExits THEN r ELSE ""]
+         ncs == [cs EXCEPT ![c] = k1]
+     IN /\ cs' = ncs
+        /\ Emit(<<Line("in", c, cls, WfOf(cls), 0, "", FALSE, 0, 0)>> \o Events(r, c) \o StepEnd(c, ncs))
+  /\ hist' = Append(hist, <<"I", c, cls>>) /\ UNCHANGED dv
+
+(* the same as In with the peer's hang-up queued right behind the read: the
    disconnect is handled before the events the read handler fired *)
 InX(c, cls, r) ==
-  /\ Racing /\ CanStep /\ Enabled(c, cls) /\ r \in Reactions(cls)
+  /\ Racing /\ CanStep /\ Enabled(c, cls) /\ ~cs[c].lg /\ r \in Reactions(cls)
   /\ LET k1  == [cs[c] EXCEPT !.nin = @ + 1, !.trunc = (cls = "Truncate"), !.buf = BufAfter(r), !.cli = CliAfter(r)]
          ncs == [cs EXCEPT ![c] = Released(k1)]
          tr  == IF r \in Closing THEN <<L("disc", c, 0, "", FALSE, 1, 0)>> ELSE <<>>
@@ -168,16 +201,27 @@ Disc(c) ==
      /\ Emit(<<L("disc", c, 0, "", FALSE, 1, 0)>> \o StepEnd(c, ncs))
   /\ hist' = Append(hist, <<"D", c, "">>) /\ UNCHANGED dv
 
+(* the lingering transport has drained its buffer: disconnect(sock) after the close *)
+TDisc(c) ==
+  /\ CanStep /\ cs[c].ph = "closing"
+  /\ LET ncs == [cs EXCEPT ![c] = Released(cs[c])] IN
+     /\ cs' = ncs
+     /\ Emit(<<L("disc", c, 0, "", FALSE, 0, 0)>> \o StepEnd(c, ncs))
+  /\ hist' = Append(hist, <<"T", c, "">>) /\ UNCHANGED dv
+
+AllReactions == {"accK", "accC", "r400", "r400g", "r400k", "r505", "r505g", "r301", "x500", "wait", "waitB", "pclose"}
+
 Next == \E c \in Conns :
-          \/ Connect(c)
+          \/ \E lg \in BOOLEAN : Connect(c, lg)
           \/ Disc(c)
-          \/ \E cls \in Classes : \E r \in Reactions(cls) : In(c, cls, r) \/ InX(c, cls, r)
+          \/ TDisc(c)
+          \/ \E cls \in Classes : \E r \in AllReactions : In(c, cls, r) \/ InX(c, cls, r) \/ Late(c, cls, r)
 
 Spec == Init /\ [][Next]_vars
 
 -----------------------------------------------------------------------------
 TypeOK == /\ bad \in STRING
-          /\ \A c \in Conns : /\ cs[c].ph \in {"none", "idle", "wait", "gone"}
+          /\ \A c \in Conns : /\ cs[c].ph \in {"none", "idle", "wait", "closing", "gone"}
                               /\ cs[c].buf \in BOOLEAN /\ cs[c].cli \in BOOLEAN
                               /\ cs[c].nin \in 0..MaxIn
 
